@@ -106,7 +106,7 @@ Definition check (s : sx) : Z :=
       | _, _ => code_decode_error
       end
   (* ---- live constructors ---- *)
-  | SL [SZ 2; SZ kind; ns; sub; name; help; vars; consts; lvs; impl] =>
+  | SL [SZ 2; SZ kind; SZ _; ns; sub; name; help; vars; consts; lvs; impl] =>
       match dStr ns, dStr sub, dStr name, dStr help, dL dStr vars, dLP consts, dL dStr lvs with
       | Some ns, Some sub, Some name, Some help, Some vars, Some consts, Some lvs =>
           let fq := build_fq_name ns sub name in
@@ -288,7 +288,7 @@ Definition explain (s : sx) : sx :=
               eB (dspec_ok_spec x)]
       | _, _ => SL []
       end
-  | SL [SZ 2; SZ kind; ns; sub; name; help; vars; consts; lvs; _] =>
+  | SL [SZ 2; SZ kind; SZ _; ns; sub; name; help; vars; consts; lvs; _] =>
       match dStr ns, dStr sub, dStr name, dStr help, dL dStr vars, dLP consts, dL dStr lvs with
       | Some ns, Some sub, Some name, Some help, Some vars, Some consts, Some lvs =>
           match new_live (kind_reserved kind) (kind_is_vec kind) (kind =? 10) ns sub name help vars consts lvs with
